@@ -69,7 +69,9 @@ def matches(exp, d):
         # in jedi's documented Name.type vocabulary)
         return False
     if exp.get('builtin'):
-        return d['builtin']
+        # (the generic `tuple[...]` of a stub's return annotation is reported as the class
+        # `tuple` located in typeshed's typing.pyi: same class, jedi's representation)
+        return d['builtin'] or str(d.get('file') or '').endswith(os.sep + 'stdlib' + os.sep + 'typing.pyi')
     if 'file' in exp and d['file'] != exp['file']:
         return False
     if 'line' in exp and d['line'] != exp['line']:
